@@ -11,7 +11,7 @@ Concurrency clause: the two constructors' check-then-append windows under a symb
 from typing import List
 
 from vf.driver import Q
-from vf.h import P, reached, note, lib_errors
+from vf.h import REPLAY, P, reached, note, lib_errors
 
 from crosshair.core import IgnoreAttempt
 
@@ -94,7 +94,7 @@ def step(h: List[int], e: List[int], draws: List[int]) -> bool:
     r = _make(P["kind"])
     reached()
     hb, ee = r.header.hop_by_hop, r.header.end_to_end
-    note(registry_h=[x.hex() for x in H], registry_e=[x.hex() for x in E], hbh=hb.hex(), e2e=ee.hex(),
+    if REPLAY: note(registry_h=[x.hex() for x in H], registry_e=[x.hex() for x in E], hbh=hb.hex(), e2e=ee.hex(),
          draws=[x.hex() for x in _OS.log])
     fresh = hb not in H and ee not in E
     inv = DiameterRequest.hop_by_hop_identifiers == H + [hb] and DiameterRequest.end_to_end_identifiers == E + [ee]
@@ -153,7 +153,7 @@ def sequence(draws: List[int]) -> bool:
     reached()
     hs = [r.header.hop_by_hop for r in reqs]
     es = [r.header.end_to_end for r in reqs]
-    note(hbh=[x.hex() for x in hs], e2e=[x.hex() for x in es])
+    if REPLAY: note(hbh=[x.hex() for x in hs], e2e=[x.hex() for x in es])
     n = len(reqs)
     distinct = all(hs[i] != hs[j] and es[i] != es[j] for i in range(n) for j in range(i + 1, n))
     return distinct and DiameterRequest.hop_by_hop_identifiers == hs and DiameterRequest.end_to_end_identifiers == es
@@ -185,7 +185,7 @@ def concurrent(draws: List[int], sched: List[int]) -> bool:
         raise IgnoreAttempt("schedule bound")
     reached()
     a, b = got["T1"], got["T2"]
-    note(t1=(a.header.hop_by_hop.hex(), a.header.end_to_end.hex()), t2=(b.header.hop_by_hop.hex(), b.header.end_to_end.hex()),
+    if REPLAY: note(t1=(a.header.hop_by_hop.hex(), a.header.end_to_end.hex()), t2=(b.header.hop_by_hop.hex(), b.header.end_to_end.hex()),
          schedule=list(sched))
     return a.header.hop_by_hop != b.header.hop_by_hop and a.header.end_to_end != b.header.end_to_end
 
